@@ -1,5 +1,6 @@
 import Rtsp.Proofs.Ledger.ErrorClose
 import Rtsp.Proofs.Ledger.Release
+import Rtsp.Proofs.Ledger.Isolation
 /-
 # C11 — the server survives hostile control connections and cleans up after them
 
@@ -133,6 +134,39 @@ step every hostile input ends in. -/
 theorem teardown_keeps_invariant (st : State) (h : Inv st) (c : Conn) (hc : c ∈ st.conns) :
     Inv (closeConn st c).1 := inv_closeConn h hc
 
+/-! ## the other connections are not affected -/
+
+/-- **A step on connection `a` leaves the projection of the state on connection `b` unchanged.**
+In a reachable state, let `sb` be the session `b` points to (`none` if it has none).  If `a` is not
+attached to that session, the input on `a` does not name it (session ids are secrets: the server
+draws them at random and hands them only to the peer that created the session), that session is
+live, and a tunnel POST does not claim `b`'s GET channel, then after any input on `a` — whatever it
+is: garbage, errors, tear-downs, time-outs — the record of `b` (its session pointer, reader phase,
+tunnel, read deadline) and the record of `b`'s session (state, transport, medias, connections,
+path) are exactly what they were.
+(The UDP registrations of `b`'s session are not part of this statement: two sessions of one IP
+address that claim the same client port collide in the listener's table; see props/C11.json.) -/
+theorem other_conns_unaffected (cfg : Config) (es : List Event) (a b : ConnId) (sb : Option SessId) (i : Input)
+    (hab : a ≠ b)
+    (hpts : PointsTo (run (init cfg) es).1 b sb)
+    (hsep : Sep (run (init cfg) es).1 a sb)
+    (hlive : ∀ x, sb = some x → (findSess (run (init cfg) es).1 x).isSome)
+    (hname : ∀ r x, i = .req r → r.sess = .id x → sb ≠ some x)
+    (htun : ∀ k f, i = .httpPost k f → f ≠ b ∧
+      ∀ e, (run (init cfg) es).1.httpRead.find? (·.2 == k) = some e → e.1 ≠ b ∧ Sep (run (init cfg) es).1 e.1 sb) :
+    findConn (step (run (init cfg) es).1 (.input a i)).1 b = findConn (run (init cfg) es).1 b ∧
+    ∀ x, sb = some x → findSess (step (run (init cfg) es).1 (.input a i)).1 x = findSess (run (init cfg) es).1 x := by
+  have hI := invariant_reachable cfg es
+  have hl : ∀ x, sb = some x → x < (run (init cfg) es).1.nextSess := by
+    intro x hx
+    cases hf : findSess (run (init cfg) es).1 x with
+    | none => have := hlive x hx; rw [hf] at this; cases this
+    | some s =>
+      obtain ⟨hs, e⟩ := findSess_some hf
+      rw [← e]; exact hI.sessLt s hs
+  have := same_step ⟨hI, hab, hpts, hsep, hl⟩ i hname htun
+  exact ⟨this.conn, this.sess⟩
+
 /-! ### non-vacuity -/
 
 /-- a fresh connection, a bogus PLAY: answered 454 and closed -/
@@ -175,5 +209,32 @@ example : (run (init {}) [.accept 0, .input 0 (.req setupTcp), .input 0 (.req pl
 /-- a frame before PLAY closes the connection (and the session it had set up) -/
 example : (run (init {}) [.accept 0, .input 0 (.req setupTcp), .input 0 (.frame 0)]).2
     = [Out.connOpen 0, Out.rtsp 0 200, Out.sessOpen 0, Out.connClose 0, Out.sessClose 0] := by decide
+
+
+/-- two players over TCP on two connections; a frame on an unknown channel, garbage and the end of
+connection 0 leave connection 1 and its session untouched: the hypotheses of
+`other_conns_unaffected` hold there with `sb = some 1` -/
+def twoPlayers : List Event :=
+  [.accept 0, .accept 1, .input 0 (.req setupTcp), .input 1 (.req setupTcp),
+   .input 0 (.req playReq), .input 1 (.req { method := .play, sess := .id 1 })]
+
+example : PointsTo (run (init {}) twoPlayers).1 1 (some 1) ∧ Sep (run (init {}) twoPlayers).1 0 (some 1) ∧
+    (findSess (run (init {}) twoPlayers).1 1).isSome := by
+  refine ⟨?_, ?_, by decide⟩
+  · intro cb h
+    have : findConn (run (init {}) twoPlayers).1 1 = some { id := 1, session := some 1, phase := .tcp } := by decide
+    rw [this] at h; cases h; rfl
+  · intro y hy hid sid hs
+    have : (run (init {}) twoPlayers).1.conns =
+        [{ id := 0, session := some 0, phase := .tcp }, { id := 1, session := some 1, phase := .tcp }] := by decide
+    rw [this] at hy
+    simp only [List.mem_cons, List.mem_nil_iff, or_false] at hy
+    rcases hy with rfl | rfl
+    · cases hs; decide
+    · cases hid
+
+example : findConn (run (init {}) (twoPlayers ++ [.input 0 .malformed])).1 1 = findConn (run (init {}) twoPlayers).1 1 ∧
+    findSess (run (init {}) (twoPlayers ++ [.input 0 .malformed])).1 1 = findSess (run (init {}) twoPlayers).1 1 ∧
+    (run (init {}) (twoPlayers ++ [.input 0 .malformed])).1.sessions.length = 1 := by decide
 
 end Rtsp.Ledger.C11
